@@ -103,6 +103,23 @@ def skip_idiom_probes(rep, pest) -> None:
     terms = [("x", "x"), ("\\u{E9}", "\u00e9"), ("\\u{20AC}", "\u20ac"), ("\\u{1F600}", "\U0001f600"), ("\\u{10FFFF}", "\U0010ffff"), ('\\"', '"'), ("\\\\", "\\"), ("\\n", "\n"), ("'", "'"),
              ("\\u{FFFF}", "\uffff"), ("\\u{10000}", "\U00010000"), ("\\0", "\x00"), ("]", "]"), ("^", "^")]
     n = 0
+    # the same characters as plain string literals, alone and inside a longer literal, in all four modes (a generated module
+    # spells its literals in Python source: nothing may be lost on the way)
+    for esc, ch in terms:
+        g = f's = {{ "{esc}" }}\nq = {{ "a{esc}b" ~ "{esc}{esc}" }}\n'
+        for mode in M.MODES:
+            try:
+                p, _ = M.build(pest, g, mode)
+            except Exception as e:  # noqa: BLE001
+                rep.violation({"kind": "literal", "grammar": g, "mode": mode}, f"{g!r} failed to build in mode {mode}: {type(e).__name__}: {e}")
+                continue
+            for rule, text, want in (("s", ch, len(ch)), ("q", "a" + ch + "b" + ch + ch, 2 + 3 * len(ch)), ("s", "x" if ch != "x" else "y", None), ("s", "", None)):
+                n += 1
+                o = M.run_parse(pest, p, rule, text)
+                got = o["pairs"][0][2] if o.get("ok") and o["pairs"] else None
+                if got != want:
+                    rep.violation({"kind": "literal", "grammar": g, "mode": mode, "rule": rule, "input": text, "expected_end": want, "observed": str(o)[:200]},
+                                  f"literal U+{ord(ch):04X} [{mode}]: rule {rule} on {text!r} ends at {got}, expected {want}")
     for esc, ch in terms:
         for shape, extra in ((f'(!"{esc}" ~ ANY)*', ""), (f'(!("{esc}" | "zz") ~ ANY)*', ""), (f'(!("zz" | "{esc}") ~ ANY)*', "")):
             g = f"x = @{{ {shape} }}\n"
